@@ -185,7 +185,7 @@ def tree_digest(d):
     return h.hexdigest()[:16]
 
 
-BLANK = {"e": "", "convknown": True, "iter": 0, "itag": 0, "vtag": -3, "gtag": -3, "htag": -3, "ptag": -3, "step": 0, "k": 0,
+BLANK = {"e": "", "convknown": True, "pdig": "none", "iter": 0, "itag": 0, "vtag": -3, "gtag": -3, "htag": -3, "ptag": -3, "step": 0, "k": 0,
          "conv": False, "atend": False, "final": False, "dir": 1, "fin": [], "tmp": [], "cfg": False,
          "exists": False, "quiescent": False, "postmortem": False, "unchanged": True, "killed": False,
          "req": 0, "route": "", "cfgeq": True, "hidxok": True, "dtypeok": True, "exc": "", "src": 1,
@@ -213,7 +213,8 @@ def build_trace(sc: dict, gens: list, ref: Reference):
             if st:
                 v, gt, h, p, hok = ref.tags(st)
                 rec.update({"iter": st.get("iteration", 0), "itag": st.get("iteration", 0),
-                            "vtag": v, "gtag": gt, "htag": h, "ptag": p, "hidxok": hok})
+                            "vtag": v, "gtag": gt, "htag": h, "ptag": p, "hidxok": hok,
+                            "pdig": sha_of(st.get("policy")) or "none"})
             if name == "x_new":
                 rec["e"] = "new"
                 if orig_cfg is None:
@@ -333,7 +334,7 @@ def run_scenario(sc: dict, workdir: Path):
         spec = {"problem": sc["problem"], "kind": sc["kind"], "solver_kw": kw, "ops": ops}
         rc, err = run_gen(spec, tr, kill_at=g.get("kill_at"), shim_kill=g.get("shim_kill"),
                           shim_log=(base / f"gen{gi}.shim") if g.get("shim_kill") is not None or g.get("shim_log") else None,
-                          watch=A)
+                          watch=A, n_devices=g.get("n_devices", 1), maxarr=100000 if sc.get("rtol") else 0)
         events = read_events(tr)
         killed = rc == -9
         if rc not in (0, -9):
@@ -361,10 +362,11 @@ def reference_for(sc: dict, workdir: Path, extra_after: int = 5) -> Reference:
     ops = [{"op": "new"}, {"op": "solve", "k": 100000}] + [{"op": "solve", "k": 1}] * extra_after
     if sc["kind"] == "PVI" and kw.get("clear_value_history_on_convergence", True):
         ops = ops[:2]
-    rc, err = run_gen({"problem": sc["problem"], "kind": sc["kind"], "solver_kw": kw, "ops": ops}, tr)
+    rc, err = run_gen({"problem": sc["problem"], "kind": sc["kind"], "solver_kw": kw, "ops": ops}, tr,
+                      maxarr=100000 if sc.get("rtol") else 0)
     if rc != 0:
         raise C.MachineryError(f"reference run failed: {err}")
-    return Reference(read_events(tr))
+    return Reference(read_events(tr), rtol=sc.get("rtol", 0.0))
 
 
 def run_all(scenarios: list, nproc: int | None = None):
